@@ -100,8 +100,14 @@ func Generate(t *tape.Tape, p Profile) *World {
 		if p.Unformatted && t.Chance(1, 4) {
 			w.Unfmt[i] = true
 		}
-		if p.LineDirective && t.Chance(1, 6) {
-			w.LineDir[i] = []string{"//line gram.y:1", "//line ../gen/lexer.rl:1", "//line p.go.tmpl:10"}[t.Intn(3)]
+		if p.LineDirective && t.Chance(1, 2) {
+			k := t.Intn(3)
+			w.LineDir[i] = []string{"//line gram.y:1", "//line ../gen/lexer.rl:1", "//line p.go.tmpl:10"}[k]
+			// the file the directive names exists, as it does for goyacc / ragel / template output
+			if w.RawFiles == nil {
+				w.RawFiles = map[string]string{}
+			}
+			w.RawFiles[[]string{"p/gram.y", "gen/lexer.rl", "p/p.go.tmpl"}[k]] = "%% grammar source, not Go\nexpr : expr '+' expr ;\n"
 		}
 	}
 	return w
